@@ -8,6 +8,7 @@ SciPy, which is what the code under test uses.
   ppf6[n][k]   round(1e6 * Phi^-1(k/n))         1 <= k < n <= NMAX_PPF
   root6[a][n]  round(1e6 * (a/1000)^(1/n))      (rule of three)
   sqrt6[m]     round(1e6 * sqrt(m))             m = 0..SQRT_MAX
+  rootw6[a][n] round(1e6 * n * (1 - (a/1000)^(1/n)))  n in BIGN (rule of three, large classes)
 """
 import json
 import math
@@ -22,6 +23,7 @@ N2MAX = 64
 NMAX_PPF = 16
 ROOT_NMAX = 220
 SQRT_MAX = 400
+BIGN = [700, 1000, 3000, 4000, 6003, 20002, 50003, 1000001]     # large class sizes (rule of three)
 
 
 def build():
@@ -54,6 +56,9 @@ def build():
     t["root6"] = {str(a): [0] + [round(S * math.pow(a / 1000.0, 1.0 / n)) for n in range(1, ROOT_NMAX + 1)]
                   for a in ALPHAS}
     t["sqrt6"] = [round(S * math.sqrt(m)) for m in range(0, SQRT_MAX + 1)]
+    # rule of three on large classes, in units of 1/n: rootw6[a][n] = round(1e6 * n * (1 - (a/1000)^(1/n)))
+    t["rootw6"] = {str(a): {str(n): round(S * n * -math.expm1(math.log(a / 1000.0) / n)) for n in BIGN}
+                   for a in ALPHAS}
     return t
 
 
